@@ -173,7 +173,7 @@ func genCuckoo(mode string) func(g *Gen, tier string) *Case {
 			c.size = uint64(g.Pick(1, 2, 3, 4, 8))
 			c.retries = uint64(g.Pick(1, 2, 3, 7, 20, 100, 300))
 		}
-		if mode == "C14" && g.Rare(0.05, 30, 11) {
+		if mode == "C14" && g.Rare(0.05, 50, 11) {
 			return genCuckooLarge(g)
 		}
 		withBad := g.Chance(0.1)
